@@ -937,6 +937,47 @@ func AnalyseLookupKey(info *types.Info, fd *ast.FuncDecl, src FuncSource, isKey 
 	return lk
 }
 
+// AnalyseLookupFunc is AnalyseLookupKey for a function that need not be a
+// method: the value being named is whatever isKey selects (a parameter).
+func AnalyseLookupFunc(info *types.Info, fd *ast.FuncDecl, src FuncSource, isKey func(ast.Expr) bool) *Lookup {
+	if fd.Recv != nil || isKey == nil {
+		return AnalyseLookupKey(info, fd, src, isKey)
+	}
+	lk := &Lookup{Info: info, OkVars: map[types.Object]*types.Var{}, ValVars: map[types.Object]*types.Var{}, fd: fd, Source: src, IsKey: isKey, constParams: map[types.Object]string{}}
+	// Recv identifies "the value" for the re-assignment check: the parameter isKey selects
+	if fd.Type.Params != nil {
+		for _, f := range fd.Type.Params.List {
+			for _, n := range f.Names {
+				if isKey(n) || isKeyDef(info, n, isKey) {
+					lk.Recv = info.Defs[n]
+				}
+			}
+		}
+	}
+	if lk.Recv == nil {
+		lk.Problems = append(lk.Problems, "the function has no parameter that carries the value")
+		return lk
+	}
+	lk.run(fd)
+	return lk
+}
+
+// isKeyDef: the defining identifier n denotes the object isKey accepts uses of.
+func isKeyDef(info *types.Info, n *ast.Ident, isKey func(ast.Expr) bool) bool {
+	o := info.Defs[n]
+	if o == nil {
+		return false
+	}
+	hit := false
+	for id, u := range info.Uses {
+		if u == o && isKey(id) {
+			hit = true
+			break
+		}
+	}
+	return hit
+}
+
 func (lk *Lookup) run(fd *ast.FuncDecl) {
 	info := lk.Info
 	st := lkState{cond: FConst(true), env: map[types.Object]ast.Expr{}}
